@@ -181,17 +181,18 @@ def sstep (hash : H → Hh) (st : Spec H S) (o : Op H S) : Out H S × Spec H S :
 
 end
 
-/-! ### instance used by the driver: headers and signers are small table indices, `hash = id` -/
+/-! ### instance used by the driver: headers and signers are small table indices (one byte each),
+      `hash = id`; the codec is proved lawful in Props (`byteCodec_lawful`) -/
 
-def idCodec : Codec Nat Nat where
-  enc l := 0x2a :: l.flatMap (fun e => [UInt8.ofNat e.1, UInt8.ofNat e.2])
-  dec b :=
-    let rec go : List UInt8 → Option (List (Nat × Nat))
-      | [] => some []
-      | [_] => none
-      | h :: s :: r => (go r).map ((h.toNat, s.toNat) :: ·)
-    match b with
-    | 0x2a :: r => go r
-    | _ => none
+def bytePairs : List UInt8 → Option (List (UInt8 × UInt8))
+  | [] => some []
+  | [_] => none
+  | h :: s :: r => (bytePairs r).map ((h, s) :: ·)
+
+def byteCodec : Codec UInt8 UInt8 where
+  enc l := 0x2a :: l.flatMap (fun e => [e.1, e.2])
+  dec b := match b with
+    | [] => none
+    | _ :: r => bytePairs r
 
 end Gossamer.C27
